@@ -79,9 +79,10 @@ func (p *Plan) NumOps() int {
 // Violation is one oracle failure. Sig identifies the violation class
 // (property / rule / cause) independent of seed and schedule.
 type Violation struct {
-	Property string `json:"property"`
-	Sig      string `json:"sig"`
-	Detail   string `json:"detail"`
+	Property string         `json:"property"`
+	Sig      string         `json:"sig"`
+	Detail   string         `json:"detail"`
+	Hint     map[string]int `json:"hint,omitempty"` // knobs that restrict a replay to the failing case of an enumeration
 }
 
 // RunResult is what one simulated run reports.
@@ -114,6 +115,7 @@ type Env struct {
 	T       *testing.T
 	PlanRng *Rng
 	Alloc   *GuardAlloc
+	Hint    map[string]int // attached to violations reported while it is set
 	Verbose bool
 	obsHash uint64
 	tmpDirs []string
@@ -126,7 +128,7 @@ func (e *Env) Violate(prop, sig, format string, args ...interface{}) {
 			return
 		}
 	}
-	e.Res.Violations = append(e.Res.Violations, Violation{Property: prop, Sig: sig, Detail: d})
+	e.Res.Violations = append(e.Res.Violations, Violation{Property: prop, Sig: sig, Detail: d, Hint: e.Hint})
 	e.Logf("VIOLATION %s %s", prop, sig)
 	if e.Verbose {
 		// details may contain addresses: never part of the observation hash
